@@ -833,6 +833,11 @@ func (r *envelopingReader) Read(data []byte) (n int, err error) {
 	}
 	if len(data) > offset {
 		n, err = r.current.Read(data[offset:])
+		if errors.Is(err, io.EOF) && r.rw.op.clientEnveloper != nil {
+			// End of this message (e.g. an empty one), not of the stream:
+			// the next call to Read moves on to the next envelope.
+			err = nil
+		}
 	}
 	return offset + n, err
 }
